@@ -247,13 +247,22 @@ def check(ctx, tree, leaves0, dsl, cfg):
         return
     menu = menu_for(dsl, ctx.tier)
     built = {lab: (gen.build(d, U)[0], d) for lab, d in menu}
+    # replicated values would be handed to functools.partial as its args tuple / keywords dict:
+    # partners with a leaf directly under a partial node are not valid programs for these operations
+    for lab in list(built):
+        of = e1.ref_flatten(built[lab][0], cfg)
+        if any(t and t[-1][1] is U.P for t in of.typed):
+            del built[lab]
+            ctx.extra['partner-skipped(partial-child-leaf)'] += 1
     for lab, (fobj, fdsl) in built.items():
         check_prefix_broadcast(ctx, tree, dsl, flat, lab, fobj, fdsl, cfg)
         check_common(ctx, tree, dsl, fobj, fdsl, lab, cfg)
         check_common(ctx, fobj, fdsl, tree, dsl, 'rev:' + lab, cfg)
-    if 'grow-first' in built:
+    if all(k in built for k in ('grow-first', 'grow-last', 'variant')):
         a, ad = built['grow-first']
         for other in ('grow-last', 'grow-last-cn', 'variant', 'suffix'):
+            if other not in built:
+                continue
             b, bd = built[other]
             check_common(ctx, a, ad, b, bd, f'grow-first+{other}', cfg)
         # n-ary maps
@@ -269,7 +278,7 @@ def check(ctx, tree, leaves0, dsl, cfg):
 
 
 def run_shard(ctx):
-    preds = ['none', 'is_tuple', 'custom']
+    preds = ['none', 'is_tuple'] if ctx.tier == 'quick' else ['none', 'is_tuple', 'custom']
     modes = ['sorted', 'ins_ns'] if ctx.tier == 'quick' else None
     nss = ['', 'ns'] if ctx.tier == 'quick' else None
     e1.drive(ctx, ctx.tier, lambda tree, leaves, dsl, cfg: check(ctx, tree, leaves, dsl, cfg),
